@@ -107,6 +107,25 @@ class ShapeTok(Val):
   pass
 
 
+class FinfoV(Val):
+  """jnp.finfo(jnp.float32)"""
+  VALS = {'eps': 2.0 ** -23, 'tiny': 2.0 ** -126, 'max': 3.4028234663852886e38, 'min': -3.4028234663852886e38,
+          'smallest_normal': 2.0 ** -126}
+
+  def __init__(self, fp):
+    self.fp = fp
+
+  def getattr(self, ctx, name):
+    if name not in self.VALS:
+      raise Unsupported(f'finfo.{name}')
+    v = self.VALS[name]
+    if self.fp:
+      return FPV(z3.FPVal(v, F32))
+    import fractions
+    fr = fractions.Fraction(v)
+    return CoordV(z3.RealVal(f'{fr.numerator}/{fr.denominator}'))
+
+
 def to_real(v):
   if isinstance(v, bool):
     v = int(v)
@@ -222,7 +241,8 @@ def quant_globals():
       'nan_to_num': Handler(nan_to_num, 'jnp.nan_to_num'), 'minimum': Handler(minimum, 'jnp.minimum'),
       'maximum': Handler(maximum, 'jnp.maximum'), 'ceil': Handler(rounding('ceil'), 'jnp.ceil'),
       'floor': Handler(rounding('floor'), 'jnp.floor'), 'where': Handler(where, 'jnp.where'),
-      'abs': Handler(absf, 'jnp.abs'), 'sign': Handler(sign, 'jnp.sign')})
+      'abs': Handler(absf, 'jnp.abs'), 'sign': Handler(sign, 'jnp.sign'),
+      'float32': 'float32', 'finfo': Handler(lambda c, t: FinfoV(False), 'jnp.finfo')})
   jax = Module('jax', {'random': Module('jax.random', {'uniform': Handler(uniform, 'jax.random.uniform')})})
   return {'jnp': jnp, 'jax': jax}
 
@@ -722,7 +742,7 @@ def fp_globals():
       'ceil': Handler(lambda c, v: FPV(z3.fpRoundToIntegral(z3.RTP(), fpv(v).t)), 'jnp.ceil'),
       'floor': Handler(lambda c, v: FPV(z3.fpRoundToIntegral(z3.RTN(), fpv(v).t)), 'jnp.floor'),
       'where': Handler(where, 'jnp.where'), 'abs': Handler(lambda c, v: FPV(z3.fpAbs(fpv(v).t)), 'jnp.abs'),
-      'sign': Handler(sign, 'jnp.sign')})
+      'sign': Handler(sign, 'jnp.sign'), 'float32': 'float32', 'finfo': Handler(lambda c, t: FinfoV(True), 'jnp.finfo')})
   jax = Module('jax', {'random': Module('jax.random', {'uniform': Handler(uniform, 'jax.random.uniform')})})
   return {'jnp': jnp, 'jax': jax}
 
